@@ -1,3 +1,24 @@
+/- C02 (task X): BEHZ `bfvMultiply` of the MODEL — invariant-noise bound, exact decoding, model-level decryption of the product.
+   All helper names carry the prefix `c02x_`.  Built on C02W (`bfvMultiply_phase`, `bfvLift_spec`), C01Q (`bfvDecrypt_eq_spec`),
+   C07S/C07L (`Spec.budget`, `c07l_v`, `exact_below_threshold`), C05U/C01J (norm bounds of the negacyclic product).
+
+   Method.  `bfvMultiply_phase` (any commutative ring with ξ^N = −1) is instantiated in the concrete ring ℤ[X]/(X^N+1)
+   (`AdjoinRoot`), where reading a coefficient vector at the root is injective (`c02x_ev_inj`); this pulls the ring identity back
+   to integer coefficients (`c02x_mul_coeff`) for the integer Horner phase `c02x_phZ` (Σ_k C_k ⋆ s^k, ⋆ = `negMulR` over ℤ).
+   `Spec.phase` is congruent modulo Q to `c02x_phZ` of any integer lifts of the residues (`c02x_phase_link`).  The noise algebra
+   `Q·(t·D − Q·M_a⋆M_b) = Q·(M_a⋆ν_b + ν_a⋆M_b) + ν_a⋆ν_b − t·E` (`c02x_noise_algebra`) and the norm bounds give X1.
+
+   X1  `bfv_noise_split`, `bfvMultiply_noise` (ANY sizes), `bfvMultiply_noise_2x2`: t·x_r = Q·μ + ν, μ ≡ m_a ⋆ m_b (mod t),
+       2·2^33·|ν| ≤ `c02x_F N t |q| ‖s‖₁ n_a n_b V_a V_b`.
+   X2  `bfvMultiply_decode` (F < 2^33·Q ⇒ decode(x_r) = decode(x_a) ⋆ decode(x_b) mod (X^N+1, t), `Spec.negMul`),
+       `bfvMultiply_budget` (budget(r) ≥ min(budget a, budget b, bits Q − 2) − L if `c02x_G ≤ 2^(34+L)`),
+       `bfvMultiply_decode_of_budget`, `pred_mul_sound_2x2` (the harness rule is sound for 2 × 2: L = lt + 2k + 8),
+       `pred_mul_sound_general` (sizes ≥ 2: L = lt + (n_a+n_b−2)·k + 8).
+   X3  `bfvDecrypt_bfvMultiply` (threshold γ·F + 2^34·|q|·Q ≤ 2^33·Q·γ), `bfvDecrypt_bfvMultiply_of_new` (constructors,
+       F ≤ (2^33−1)·Q), `bfvDecrypt_bfvMultiply_of_budget`, `pred_mul_decrypt_2x2_of_new`; refusals `…_refuses_1x1`, `…_refuses_ntt`.
+   No new hypothesis bundle is introduced: `MulOK`, `DecOK`, `c02w_Window` are derived from the constructors in C02W / C01P
+   (`c02w_mulOK_of_new`, `c01p_decOK_of_new`, `c02w_window_of_new`); `c02x_NoiseLe` is satisfied by `V = noiseNorm` (`c07l_getD_le`);
+   the numeric thresholds are satisfiable (`c02x_threshold_example`). -/
 import Heathcliff.Proofs.C02W
 import Heathcliff.Proofs.C01Q
 import Heathcliff.Proofs.C04K
@@ -844,6 +865,119 @@ theorem c02x_G_2x2 {N t K S T : Nat} (hN : 1 ≤ N) (hT1 : 1 ≤ T) (hT : t ≤ 
   generalize T * N^2 = Y at hX ⊢
   omega
 
+
+/-- the auxiliary prime γ of a tool built by `RNSTool.new` is the second auxiliary modulus -/
+theorem c02x_gamma_of_new {n : Nat} {q : RNSBase} {t : Modulus} {aux : List Modulus} {r : RNSTool}
+    (ht : t.WF) (h : RNSTool.new n q t aux = .ok r) : r.gamma ∈ aux := by
+  have ht2 := ht.two_le
+  obtain ⟨_, _, _, _, _, _, _, _, hlen, _, _, _, _, _, _, _, _, _, _, _, _, rgam, _⟩ := c01p_new_inv h (by omega)
+  rw [rgam]
+  have e : aux.getD 1 default = aux[1] := by
+    simp [List.getD, List.getElem?_eq_getElem (by omega : 1 < aux.length)]
+  rw [e]; exact List.getElem_mem _
+
+theorem c02x_threshold_of_gamma {g F K Q : Nat} (hg : 2^40 ≤ g) (hK : K ≤ 64) (hF : F ≤ (2^33 - 1) * Q) :
+    g * F + 2^34 * K * Q ≤ 2^33 * Q * g := by
+  have h1 : g * F ≤ g * ((2^33 - 1) * Q) := Nat.mul_le_mul_left _ hF
+  have h2 : 2^34 * K * Q ≤ 2^34 * 64 * Q := Nat.mul_le_mul_right _ (Nat.mul_le_mul_left _ hK)
+  have h3 : 2^40 * Q ≤ g * Q := Nat.mul_le_mul_right _ hg
+  have e1 : g * ((2^33 - 1) * Q) + g * Q = 2^33 * Q * g := by
+    have : (2^33 - 1 : Nat) + 1 = 2^33 := by norm_num
+    calc g * ((2^33 - 1) * Q) + g * Q = g * Q * ((2^33 - 1) + 1) := by ring
+      _ = 2^33 * Q * g := by rw [this]; ring
+  have e2 : 2^34 * 64 * Q = 2^40 * Q := by norm_num
+  omega
+
+
+theorem c02x_geo_le_S (S N : Nat) (hS : S ≤ N) : ∀ m, c02x_geo S m ≤ c02x_geo N m
+  | 0 => Nat.le_refl _
+  | m+1 => by
+    have ih := c02x_geo_le_S S N hS m
+    show 1 + S * c02x_geo S m ≤ 1 + N * c02x_geo N m
+    exact Nat.add_le_add_left (Nat.mul_le_mul hS ih) 1
+
+/-- `Σ_{j≤m} N^j + 1 ≤ 2·N^m` for `N ≥ 2` -/
+theorem c02x_geo_pow (N : Nat) (hN : 2 ≤ N) : ∀ m, c02x_geo N (m+1) + 1 ≤ 2 * N^m
+  | 0 => by simp [c02x_geo]
+  | m+1 => by
+    have ih := c02x_geo_pow N hN m
+    have e : c02x_geo N (m+1+1) = 1 + N * c02x_geo N (m+1) := rfl
+    have h1 : N * (c02x_geo N (m+1) + 1) ≤ N * (2 * N^m) := Nat.mul_le_mul_left _ ih
+    have e2 : N * (2 * N^m) = 2 * N^(m+1) := by ring
+    have e3 : N * (c02x_geo N (m+1) + 1) = N * c02x_geo N (m+1) + N := by ring
+    omega
+
+theorem c02x_geo_bound {S N : Nat} (hS : S ≤ N) (hN : 2 ≤ N) {m : Nat} (hm : 1 ≤ m) : c02x_geo S m ≤ 2 * N^(m-1) := by
+  obtain ⟨m', rfl⟩ : ∃ m', m = m' + 1 := ⟨m - 1, by omega⟩
+  have := c02x_geo_pow N hN m'
+  have := c02x_geo_le_S S N hS (m'+1)
+  simp only [Nat.add_sub_cancel]
+  omega
+
+/-- the growth factor for operand sizes `na, nb ≥ 2`, `‖s‖₁ ≤ N`, `N ≥ 2`, `t ≤ T`, at most 64 moduli: `G ≤ 2^42·T·N^(na+nb−2)` -/
+theorem c02x_G_general {N t K S T na nb : Nat} (hN : 2 ≤ N) (hT1 : 1 ≤ T) (hT : t ≤ T) (hK : K ≤ 64) (hS : S ≤ N)
+    (ha : 2 ≤ na) (hb : 2 ≤ nb) : c02x_G N t K S na nb ≤ 2^42 * (T * N^(na + nb - 2)) := by
+  unfold c02x_G
+  have ga := c02x_geo_bound hS hN (show 1 ≤ na by omega)
+  have gb := c02x_geo_bound hS hN (show 1 ≤ nb by omega)
+  have gr := c02x_geo_bound hS hN (show 1 ≤ na + nb - 1 by omega)
+  have h4 : 2^32 + 2 * K ≤ 2^32 + 128 := by omega
+  have step : N * ((2 * t * ((2^32 + 2 * K) * c02x_geo S na) + 2^33) + (2 * t * ((2^32 + 2 * K) * c02x_geo S nb) + 2^33))
+      + 2^33 * N + 2 * 2^33 * t * (K * c02x_geo S (na + nb - 1))
+      ≤ N * ((2 * T * ((2^32 + 128) * (2 * N^(na-1))) + 2^33) + (2 * T * ((2^32 + 128) * (2 * N^(nb-1))) + 2^33))
+      + 2^33 * N + 2 * 2^33 * T * (64 * (2 * N^(na + nb - 1 - 1))) := by gcongr
+  refine le_trans step ?_
+  have hN1 : 1 ≤ N := by omega
+  have p1 : N * N^(na-1) ≤ N^(na + nb - 2) := by
+    rw [← pow_succ']; exact Nat.pow_le_pow_right hN1 (by omega)
+  have p2 : N * N^(nb-1) ≤ N^(na + nb - 2) := by
+    rw [← pow_succ']; exact Nat.pow_le_pow_right hN1 (by omega)
+  have p3 : N ≤ N^(na + nb - 2) := by
+    calc N = N^1 := (pow_one N).symm
+      _ ≤ N^(na + nb - 2) := Nat.pow_le_pow_right hN1 (by omega)
+  have p4 : na + nb - 1 - 1 = na + nb - 2 := by omega
+  rw [p4]
+  have q1 : T * (N * N^(na-1)) ≤ T * N^(na + nb - 2) := Nat.mul_le_mul_left _ p1
+  have q2 : T * (N * N^(nb-1)) ≤ T * N^(na + nb - 2) := Nat.mul_le_mul_left _ p2
+  have q3 : N ≤ T * N^(na + nb - 2) := le_trans p3 (Nat.le_mul_of_pos_left _ hT1)
+  have e : N * ((2 * T * ((2^32 + 128) * (2 * N^(na-1))) + 2^33) + (2 * T * ((2^32 + 128) * (2 * N^(nb-1))) + 2^33))
+      + 2^33 * N + 2 * 2^33 * T * (64 * (2 * N^(na + nb - 2)))
+      = 4 * (2^32 + 128) * (T * (N * N^(na-1))) + 4 * (2^32 + 128) * (T * (N * N^(nb-1))) + 3 * 2^33 * N
+        + 2^41 * (T * N^(na + nb - 2)) := by ring
+  rw [e]
+  generalize T * (N * N^(na-1)) = u1 at q1 ⊢
+  generalize T * (N * N^(nb-1)) = u2 at q2 ⊢
+  generalize T * N^(na + nb - 2) = Y at q1 q2 q3 ⊢
+  omega
+
+
+/-- arithmetic core of the budget rules: operand noise norms `Va, Vb` with budgets `≥ L + 2 + e`, `F ≤ G·max(Va,Vb,1)`,
+    `G ≤ 2^(34+L)` give `2^e·F < 2^33·Q` and `2Va, 2Vb < Q` -/
+theorem c02x_budget_arith {Q Va Vb F G L e : Nat} (hQ : 0 < Q) (hF : F ≤ G * max (max Va Vb) 1) (hG : G ≤ 2^(34 + L))
+    (hβ : L + 2 + e ≤ min (((bitCount Q : Int) - (bitCount Va : Int) - 1).toNat)
+      (((bitCount Q : Int) - (bitCount Vb : Int) - 1).toNat)) :
+    2^e * F < 2^33 * Q ∧ 2 * Va < Q ∧ 2 * Vb < Q := by
+  have hQp := c02x_pow_le_of_bitCount hQ
+  have hbm := c02x_bitCount_max Va Vb
+  have hla := c02x_bitCount_lt Va
+  have hlb := c02x_bitCount_lt Vb
+  have hlv := c02x_bitCount_lt (max (max Va Vb) 1)
+  rw [hbm] at hlv
+  have pa : 2^(bitCount Va + 1) ≤ 2^(bitCount Q - 1) := Nat.pow_le_pow_right (by norm_num) (by omega)
+  have pb : 2^(bitCount Vb + 1) ≤ 2^(bitCount Q - 1) := Nat.pow_le_pow_right (by norm_num) (by omega)
+  rw [pow_succ] at pa pb
+  have pv : 2^e * (2^(34 + L) * 2^(max (max (bitCount Va) (bitCount Vb)) 1)) ≤ 2^33 * 2^(bitCount Q - 1) := by
+    rw [← pow_add, ← pow_add, ← pow_add]
+    exact Nat.pow_le_pow_right (by norm_num) (by omega)
+  refine ⟨?_, by omega, by omega⟩
+  have s1 := Nat.mul_le_mul_right (max (max Va Vb) 1) hG
+  have s2 : 2^(34 + L) * max (max Va Vb) 1 < 2^(34 + L) * 2^(max (max (bitCount Va) (bitCount Vb)) 1) :=
+    Nat.mul_lt_mul_of_pos_left hlv (by positivity)
+  have s3 : 2^33 * 2^(bitCount Q - 1) ≤ 2^33 * Q := Nat.mul_le_mul_left _ hQp
+  have s4 : 2^e * F < 2^e * (2^(34 + L) * 2^(max (max (bitCount Va) (bitCount Vb)) 1)) :=
+    Nat.mul_lt_mul_of_pos_left (by omega) (by positivity)
+  omega
+
 /-! ## Property theorems -/
 
 /-- X1, operands (the invariant-noise convention of `Spec.budget`): every phase coefficient splits as `t·x = Q·m + ν` with
@@ -1042,38 +1176,11 @@ theorem bfvMultiply_decode_of_budget {l : Level} {T : Array NTTTables} (hm : Mul
           (Spec.bfvDecode l.t.value (Spec.prodL (c01p_qvals l)) (Spec.phase (c01p_qvals l) l.n sk b.polys.toList))
           l.t.value := by
   have hQ : 0 < Spec.prodL (c01p_qvals l) := by rw [c02x_prodL hm]; exact hm.tool.qwf.prod_pos
-  have hQp := c02x_pow_le_of_bitCount hQ
   rw [budget_eq, budget_eq] at hβ
-  have hVa : c02x_NoiseLe l.t.value (Spec.prodL (c01p_qvals l)) (Spec.phase (c01p_qvals l) l.n sk a.polys.toList) l.n
-      (noiseNorm true l.t.value (Spec.prodL (c01p_qvals l)) (Spec.phase (c01p_qvals l) l.n sk a.polys.toList)) :=
-    fun j _ => c07l_getD_le true _ _ _ j
-  have hVb : c02x_NoiseLe l.t.value (Spec.prodL (c01p_qvals l)) (Spec.phase (c01p_qvals l) l.n sk b.polys.toList) l.n
-      (noiseNorm true l.t.value (Spec.prodL (c01p_qvals l)) (Spec.phase (c01p_qvals l) l.n sk b.polys.toList)) :=
-    fun j _ => c07l_getD_le true _ _ _ j
-  have hF0 := c02x_F_le_G l.n l.t.value l.size (∑ k ∈ range l.n, (sk.getD k 0).natAbs) a.polys.size b.polys.size
-    (noiseNorm true l.t.value (Spec.prodL (c01p_qvals l)) (Spec.phase (c01p_qvals l) l.n sk a.polys.toList))
-    (noiseNorm true l.t.value (Spec.prodL (c01p_qvals l)) (Spec.phase (c01p_qvals l) l.n sk b.polys.toList))
-  have hbm := c02x_bitCount_max
-    (noiseNorm true l.t.value (Spec.prodL (c01p_qvals l)) (Spec.phase (c01p_qvals l) l.n sk a.polys.toList))
-    (noiseNorm true l.t.value (Spec.prodL (c01p_qvals l)) (Spec.phase (c01p_qvals l) l.n sk b.polys.toList))
-  generalize noiseNorm true l.t.value (Spec.prodL (c01p_qvals l)) (Spec.phase (c01p_qvals l) l.n sk a.polys.toList) = Va at *
-  generalize noiseNorm true l.t.value (Spec.prodL (c01p_qvals l)) (Spec.phase (c01p_qvals l) l.n sk b.polys.toList) = Vb at *
-  have hla := c02x_bitCount_lt Va
-  have hlb := c02x_bitCount_lt Vb
-  have hlv := c02x_bitCount_lt (max (max Va Vb) 1)
-  rw [hbm] at hlv
-  have pa : 2^(bitCount Va + 1) ≤ 2^(bitCount (Spec.prodL (c01p_qvals l)) - 1) := Nat.pow_le_pow_right (by norm_num) (by omega)
-  have pb : 2^(bitCount Vb + 1) ≤ 2^(bitCount (Spec.prodL (c01p_qvals l)) - 1) := Nat.pow_le_pow_right (by norm_num) (by omega)
-  rw [pow_succ] at pa pb
-  have pv : 2^(34 + L) * 2^(max (max (bitCount Va) (bitCount Vb)) 1) ≤ 2^33 * 2^(bitCount (Spec.prodL (c01p_qvals l)) - 1) := by
-    rw [← pow_add, ← pow_add]
-    exact Nat.pow_le_pow_right (by norm_num) (by omega)
-  refine bfvMultiply_decode hm ht ha hb hna hnb h1 h2 hwin hr hsk hVa hVb (by omega) (by omega) ?_
-  have s1 := Nat.mul_le_mul_right (max (max Va Vb) 1) hG
-  have s2 : 2^(34 + L) * max (max Va Vb) 1 < 2^(34 + L) * 2^(max (max (bitCount Va) (bitCount Vb)) 1) :=
-    Nat.mul_lt_mul_of_pos_left hlv (by positivity)
-  have s3 : 2^33 * 2^(bitCount (Spec.prodL (c01p_qvals l)) - 1) ≤ 2^33 * Spec.prodL (c01p_qvals l) := Nat.mul_le_mul_left _ hQp
-  omega
+  obtain ⟨f1, f2, f3⟩ := c02x_budget_arith (e := 0) hQ (c02x_F_le_G _ _ _ _ _ _ _ _) hG (by omega)
+  rw [pow_zero, Nat.one_mul] at f1
+  exact bfvMultiply_decode hm ht ha hb hna hnb h1 h2 hwin hr hsk
+    (fun j _ => c07l_getD_le true _ _ _ j) (fun j _ => c07l_getD_le true _ _ _ j) f2 f3 f1
 
 /-- X2, the harness rule `Prog::pred_mul` (harness/src/c02.rs: `min(pred a, pred b) − (log2 t + 2·log2 N + 10 + size a + size b)`)
     is SOUND for 2 × 2 products, for every secret with `‖s‖₁ ≤ N` (e.g. ternary), `t ≤ 2^lt`, `N = 2^k`:
@@ -1114,5 +1221,221 @@ theorem pred_mul_sound_2x2 {l : Level} {T : Array NTTTables} (hm : MulOK l T) (h
     omega
   · intro hβ
     exact bfvMultiply_decode_of_budget hm ht ha hb hna hnb (by omega) (by omega) hwin' hr hsk _ hG (by omega)
+
+/-- X3 with every hypothesis bundle discharged from the model's constructors (`RNSBase.new`, `RNSTool.new`, `NTTTables.new`; at most
+    62 moduli, auxiliary moduli ≥ 2^61 − 2^54, `min(n_a, n_b)·N ≤ 2^30`): decryption of the product is the negacyclic product of the
+    operands' exact decodings whenever the noise bound satisfies `F ≤ (2^33 − 1)·Q` (`‖ν_mul‖∞ ≤ Q/2·(1 − 2^-33)`; the BEHZ
+    γ-correction costs nothing more because γ > 2^60) -/
+theorem bfvDecrypt_bfvMultiply_of_new {l : Level} {T : Array NTTTables} {q : RNSBase} {aux : List Modulus}
+    (hl : l.WF) (hlen : l.qs.size ≤ 62) (hk : l.k ≤ 60) (ht : l.t.WF) (htb : l.t.value < 2^l.t.bits)
+    (haux : ∀ m ∈ aux, m.WF ∧ 2^61 - 2^54 ≤ m.value)
+    (hq : RNSBase.new l.qs.toList = .ok q) (h : RNSTool.new l.n q l.t aux = .ok l.tool)
+    (hT : ∀ i, i < l.tool.baseBsk.size → ∃ pr root0, root0 < 2^64 ∧
+      NTTTables.new l.k (l.tool.baseBsk.q i) pr root0 = .ok (T.getD i default))
+    {a b r : Ct}
+    (ha : ∀ k, k < a.polys.size → RnsCanon l (a.polys.getD k #[]))
+    (hb : ∀ k, k < b.polys.size → RnsCanon l (b.polys.getD k #[]))
+    (hna : a.ntt = false) (hnb : b.ntt = false) (h1 : 1 ≤ a.polys.size) (h2 : 1 ≤ b.polys.size)
+    (h3 : 3 ≤ a.polys.size + b.polys.size) (hPN : min a.polys.size b.polys.size * l.n ≤ 2^30)
+    (hr : bfvMultiply l T a b = .ok r)
+    {sk : Array Int} (hsk : sk.size = l.n) {Va Vb : Nat}
+    (hVa : c02x_NoiseLe l.t.value (Spec.prodL (c01p_qvals l)) (Spec.phase (c01p_qvals l) l.n sk a.polys.toList) l.n Va)
+    (hVb : c02x_NoiseLe l.t.value (Spec.prodL (c01p_qvals l)) (Spec.phase (c01p_qvals l) l.n sk b.polys.toList) l.n Vb)
+    (h2a : 2 * Va < Spec.prodL (c01p_qvals l)) (h2b : 2 * Vb < Spec.prodL (c01p_qvals l))
+    (hF : c02x_F l.n l.t.value l.size (∑ k ∈ range l.n, (sk.getD k 0).natAbs) a.polys.size b.polys.size Va Vb
+      ≤ (2^33 - 1) * Spec.prodL (c01p_qvals l)) :
+    bfvDecrypt l sk r = .ok (Spec.trim
+      (Spec.negMul (Spec.bfvDecode l.t.value (Spec.prodL (c01p_qvals l)) (Spec.phase (c01p_qvals l) l.n sk a.polys.toList))
+          (Spec.bfvDecode l.t.value (Spec.prodL (c01p_qvals l)) (Spec.phase (c01p_qvals l) l.n sk b.polys.toList))
+          l.t.value)) := by
+  have haux' : ∀ m ∈ aux, m.WF ∧ 2^32 ≤ m.value := fun m hm => ⟨(haux m hm).1, le_trans (by norm_num) (haux m hm).2⟩
+  have hm := c02w_mulOK_of_new hl hlen hk ht haux' hq h hT
+  have hmw : ∀ m ∈ l.qs.toList, m.WF := by
+    intro m hm'
+    obtain ⟨i, hi, rfl⟩ := Array.mem_iff_getElem.mp (Array.mem_toList_iff.mp hm')
+    have := (c01o_level_comp hl (i := i) hi).2.2.2
+    unfold Level.q at this
+    simpa [Array.getD, hi] using this
+  obtain ⟨hqwf, hqbase⟩ := RNSBase.new_wf hmw (by simpa using (by omega : l.qs.size ≤ 64)) hq
+  have hqs : q.size ≤ 62 := by unfold RNSBase.size; rw [hqbase]; simpa using hlen
+  have hd := c01p_decOK_of_new hmw (by omega) ht (fun m hm => (haux m hm).1) hq h
+  have hwin := c02w_window_of_new hqwf hqs ht htb haux h hPN
+  have hg : 2^40 ≤ l.tool.gamma.value := le_trans (by norm_num) (haux _ (c02x_gamma_of_new ht h)).2
+  have hK : l.size ≤ 64 := by rw [← c02w_base_size hm]; exact hm.tool.qwf.le64
+  have ht0 : 0 < l.t.value := by have := ht.two_le; omega
+  exact bfvDecrypt_bfvMultiply hm hd ht0 ha hb hna hnb h1 h2 h3 hwin hr hsk hVa hVb h2a h2b
+    (c02x_threshold_of_gamma hg hK hF)
+
+/-- X2, the worst-case-sound form of the product rule for ANY operand sizes `n_a, n_b ≥ 2` (secret with `‖s‖₁ ≤ N`, `N = 2^k ≥ 2`,
+    `t ≤ 2^lt`): (i) `budget(result) ≥ min(budget a, budget b) − (lt + (n_a+n_b−2)·k + 9)`; (ii) decoding of the product is exact
+    whenever `min(budget a, budget b) ≥ lt + (n_a+n_b−2)·k + 10`.  The harness rule subtracts `lt + 2k + 10 + n_a + n_b`; it is
+    covered by this worst-case bound exactly when `(n_a+n_b−4)·k ≤ n_a+n_b` (always for 2 × 2, see `pred_mul_sound_2x2`). -/
+theorem pred_mul_sound_general {l : Level} {T : Array NTTTables} (hm : MulOK l T) (ht : 0 < l.t.value) {a b r : Ct}
+    (ha : ∀ k, k < a.polys.size → RnsCanon l (a.polys.getD k #[]))
+    (hb : ∀ k, k < b.polys.size → RnsCanon l (b.polys.getD k #[]))
+    (hna : a.ntt = false) (hnb : b.ntt = false) (h1 : 2 ≤ a.polys.size) (h2 : 2 ≤ b.polys.size)
+    (hwin : c02w_Window l a.polys.size b.polys.size) (hr : bfvMultiply l T a b = .ok r)
+    {sk : Array Int} (hsk : sk.size = l.n) (hS : ∑ k ∈ range l.n, (sk.getD k 0).natAbs ≤ l.n) (hk1 : 1 ≤ l.k)
+    {lt : Nat} (hlt : l.t.value ≤ 2^lt) :
+    (min (Spec.budget true l.t.value (Spec.prodL (c01p_qvals l)) (Spec.phase (c01p_qvals l) l.n sk a.polys.toList))
+         (Spec.budget true l.t.value (Spec.prodL (c01p_qvals l)) (Spec.phase (c01p_qvals l) l.n sk b.polys.toList))
+      ≤ Spec.budget true l.t.value (Spec.prodL (c01p_qvals l)) (Spec.phase (c01p_qvals l) l.n sk r.polys.toList)
+          + (lt + (a.polys.size + b.polys.size - 2) * l.k + 9)) ∧
+    (lt + (a.polys.size + b.polys.size - 2) * l.k + 10 ≤ min
+        (Spec.budget true l.t.value (Spec.prodL (c01p_qvals l)) (Spec.phase (c01p_qvals l) l.n sk a.polys.toList))
+        (Spec.budget true l.t.value (Spec.prodL (c01p_qvals l)) (Spec.phase (c01p_qvals l) l.n sk b.polys.toList)) →
+      Spec.bfvDecode l.t.value (Spec.prodL (c01p_qvals l)) (Spec.phase (c01p_qvals l) l.n sk r.polys.toList)
+        = Spec.negMul (Spec.bfvDecode l.t.value (Spec.prodL (c01p_qvals l)) (Spec.phase (c01p_qvals l) l.n sk a.polys.toList))
+            (Spec.bfvDecode l.t.value (Spec.prodL (c01p_qvals l)) (Spec.phase (c01p_qvals l) l.n sk b.polys.toList))
+            l.t.value) := by
+  have hK : l.size ≤ 64 := by rw [← c02w_base_size hm]; exact hm.tool.qwf.le64
+  have hN2 : 2 ≤ l.n := by
+    rw [hm.lwf.npow]
+    calc 2 = 2^1 := rfl
+      _ ≤ 2^l.k := Nat.pow_le_pow_right (by norm_num) hk1
+  have hG : c02x_G l.n l.t.value l.size (∑ k ∈ range l.n, (sk.getD k 0).natAbs) a.polys.size b.polys.size
+      ≤ 2^(34 + (lt + (a.polys.size + b.polys.size - 2) * l.k + 8)) := by
+    refine le_trans (c02x_G_general hN2 (Nat.one_le_two_pow) hlt hK hS h1 h2) ?_
+    rw [hm.lwf.npow, ← pow_mul, ← pow_add, ← pow_add]
+    apply Nat.pow_le_pow_right (by norm_num)
+    rw [Nat.mul_comm l.k]
+    omega
+  constructor
+  · have hQ : 0 < Spec.prodL (c01p_qvals l) := by rw [c02x_prodL hm]; exact hm.tool.qwf.prod_pos
+    have hbud := bfvMultiply_budget hm ha hb hna hnb (by omega) (by omega) hwin hr hsk _ hG
+    have hha := c02x_bitCount_half hQ (c02x_noiseNorm_half l.t.value hQ (Spec.phase (c01p_qvals l) l.n sk a.polys.toList))
+    rw [budget_eq, budget_eq, budget_eq] at hbud ⊢
+    omega
+  · intro hβ
+    exact bfvMultiply_decode_of_budget hm ht ha hb hna hnb (by omega) (by omega) hwin hr hsk _ hG (by omega)
+
+/-- X3 from budgets (ANY sizes): with `G ≤ 2^(34+L)`, both operand budgets `≥ L + 3` bits and γ ≥ 2^40, the model's decryption
+    of the model's product is the negacyclic product modulo t of the operands' exact decodings -/
+theorem bfvDecrypt_bfvMultiply_of_budget {l : Level} {T : Array NTTTables} (hm : MulOK l T) (hd : DecOK l)
+    (ht : 0 < l.t.value) (hγ : 2^40 ≤ l.tool.gamma.value) {a b r : Ct}
+    (ha : ∀ k, k < a.polys.size → RnsCanon l (a.polys.getD k #[]))
+    (hb : ∀ k, k < b.polys.size → RnsCanon l (b.polys.getD k #[]))
+    (hna : a.ntt = false) (hnb : b.ntt = false) (h1 : 1 ≤ a.polys.size) (h2 : 1 ≤ b.polys.size)
+    (h3 : 3 ≤ a.polys.size + b.polys.size)
+    (hwin : c02w_Window l a.polys.size b.polys.size) (hr : bfvMultiply l T a b = .ok r)
+    {sk : Array Int} (hsk : sk.size = l.n) (L : Nat)
+    (hG : c02x_G l.n l.t.value l.size (∑ k ∈ range l.n, (sk.getD k 0).natAbs) a.polys.size b.polys.size ≤ 2^(34 + L))
+    (hβ : L + 3 ≤ min
+      (Spec.budget true l.t.value (Spec.prodL (c01p_qvals l)) (Spec.phase (c01p_qvals l) l.n sk a.polys.toList))
+      (Spec.budget true l.t.value (Spec.prodL (c01p_qvals l)) (Spec.phase (c01p_qvals l) l.n sk b.polys.toList))) :
+    bfvDecrypt l sk r = .ok (Spec.trim
+      (Spec.negMul (Spec.bfvDecode l.t.value (Spec.prodL (c01p_qvals l)) (Spec.phase (c01p_qvals l) l.n sk a.polys.toList))
+          (Spec.bfvDecode l.t.value (Spec.prodL (c01p_qvals l)) (Spec.phase (c01p_qvals l) l.n sk b.polys.toList))
+          l.t.value)) := by
+  have hQ : 0 < Spec.prodL (c01p_qvals l) := by rw [c02x_prodL hm]; exact hm.tool.qwf.prod_pos
+  have hK : l.size ≤ 64 := by rw [← c02w_base_size hm]; exact hm.tool.qwf.le64
+  rw [budget_eq, budget_eq] at hβ
+  obtain ⟨f1, f2, f3⟩ := c02x_budget_arith (e := 1) hQ (c02x_F_le_G _ _ _ _ _ _ _ _) hG (by omega)
+  refine bfvDecrypt_bfvMultiply hm hd ht ha hb hna hnb h1 h2 h3 hwin hr hsk
+    (fun j _ => c07l_getD_le true _ _ _ j) (fun j _ => c07l_getD_le true _ _ _ j) f2 f3
+    (c02x_threshold_of_gamma hγ hK ?_)
+  have e : (2^33 - 1 : Nat) = 2^32 + (2^32 - 1) := by norm_num
+  rw [e, Nat.add_mul]
+  rw [pow_one] at f1
+  have : 2^33 * Spec.prodL (c01p_qvals l) = 2 * (2^32 * Spec.prodL (c01p_qvals l)) := by ring
+  omega
+
+/-- X3, end to end for two size-2 ciphertexts on a level built by the model's constructors, in the terms of the harness rule:
+    whenever both operand budgets are at least `lt + 2k + 11` bits (in particular whenever `Prog::pred_mul`, which subtracts
+    `lt + 2k + 14`, predicts ≥ 1 bit from lower bounds of the operand budgets), `bfvDecrypt (bfvMultiply a b)` succeeds and equals
+    `trim (decode a ⋆ decode b mod (X^N+1, t))` -/
+theorem pred_mul_decrypt_2x2_of_new {l : Level} {T : Array NTTTables} {q : RNSBase} {aux : List Modulus}
+    (hl : l.WF) (hlen : l.qs.size ≤ 62) (hk : l.k ≤ 29) (ht : l.t.WF) (htb : l.t.value < 2^l.t.bits)
+    (haux : ∀ m ∈ aux, m.WF ∧ 2^61 - 2^54 ≤ m.value)
+    (hq : RNSBase.new l.qs.toList = .ok q) (h : RNSTool.new l.n q l.t aux = .ok l.tool)
+    (hT : ∀ i, i < l.tool.baseBsk.size → ∃ pr root0, root0 < 2^64 ∧
+      NTTTables.new l.k (l.tool.baseBsk.q i) pr root0 = .ok (T.getD i default))
+    {a b r : Ct}
+    (ha : ∀ k, k < a.polys.size → RnsCanon l (a.polys.getD k #[]))
+    (hb : ∀ k, k < b.polys.size → RnsCanon l (b.polys.getD k #[]))
+    (hna : a.ntt = false) (hnb : b.ntt = false) (h1 : a.polys.size = 2) (h2 : b.polys.size = 2)
+    (hr : bfvMultiply l T a b = .ok r)
+    {sk : Array Int} (hsk : sk.size = l.n) (hS : ∑ k ∈ range l.n, (sk.getD k 0).natAbs ≤ l.n)
+    {lt : Nat} (hlt : l.t.value ≤ 2^lt)
+    (hβ : lt + 2 * l.k + 11 ≤ min
+      (Spec.budget true l.t.value (Spec.prodL (c01p_qvals l)) (Spec.phase (c01p_qvals l) l.n sk a.polys.toList))
+      (Spec.budget true l.t.value (Spec.prodL (c01p_qvals l)) (Spec.phase (c01p_qvals l) l.n sk b.polys.toList))) :
+    bfvDecrypt l sk r = .ok (Spec.trim
+      (Spec.negMul (Spec.bfvDecode l.t.value (Spec.prodL (c01p_qvals l)) (Spec.phase (c01p_qvals l) l.n sk a.polys.toList))
+          (Spec.bfvDecode l.t.value (Spec.prodL (c01p_qvals l)) (Spec.phase (c01p_qvals l) l.n sk b.polys.toList))
+          l.t.value)) := by
+  have haux' : ∀ m ∈ aux, m.WF ∧ 2^32 ≤ m.value := fun m hm => ⟨(haux m hm).1, le_trans (by norm_num) (haux m hm).2⟩
+  have hm := c02w_mulOK_of_new hl hlen (by omega) ht haux' hq h hT
+  have hmw : ∀ m ∈ l.qs.toList, m.WF := by
+    intro m hm'
+    obtain ⟨i, hi, rfl⟩ := Array.mem_iff_getElem.mp (Array.mem_toList_iff.mp hm')
+    have := (c01o_level_comp hl (i := i) hi).2.2.2
+    unfold Level.q at this
+    simpa [Array.getD, hi] using this
+  obtain ⟨hqwf, hqbase⟩ := RNSBase.new_wf hmw (by simpa using (by omega : l.qs.size ≤ 64)) hq
+  have hqs : q.size ≤ 62 := by unfold RNSBase.size; rw [hqbase]; simpa using hlen
+  have hd := c01p_decOK_of_new hmw (by omega) ht (fun m hm => (haux m hm).1) hq h
+  have hPN : min a.polys.size b.polys.size * l.n ≤ 2^30 := by
+    rw [h1, h2, hl.npow]
+    calc min 2 2 * 2^l.k = 2^(l.k + 1) := by rw [pow_succ]; simp [Nat.mul_comm]
+      _ ≤ 2^30 := Nat.pow_le_pow_right (by norm_num) (by omega)
+  have hwin := c02w_window_of_new hqwf hqs ht htb haux h hPN
+  have hg : 2^40 ≤ l.tool.gamma.value := le_trans (by norm_num) (haux _ (c02x_gamma_of_new ht h)).2
+  have hK : l.size ≤ 64 := by rw [← c02w_base_size hm]; exact hm.tool.qwf.le64
+  have ht0 : 0 < l.t.value := by have := ht.two_le; omega
+  have hG : c02x_G l.n l.t.value l.size (∑ k ∈ range l.n, (sk.getD k 0).natAbs) a.polys.size b.polys.size
+      ≤ 2^(34 + (lt + 2 * l.k + 8)) := by
+    rw [h1, h2]
+    refine le_trans (c02x_G_2x2 (c01q_n_pos hl) (Nat.one_le_two_pow) hlt hK hS) ?_
+    rw [hl.npow, ← pow_mul, ← pow_add, ← pow_add]
+    exact Nat.pow_le_pow_right (by norm_num) (by omega)
+  exact bfvDecrypt_bfvMultiply_of_budget hm hd ht0 hg ha hb hna hnb (by omega) (by omega) (by omega) hwin hr hsk _ hG
+    (by omega)
+
+/-- `c02x_NoiseLe` is always satisfied by the norm `Spec.budget` is computed from -/
+theorem c02x_noiseLe_norm (t Q : Nat) (ph : Spec.ZPoly) (n : Nat) : c02x_NoiseLe t Q ph n (noiseNorm true t Q ph) :=
+  fun j _ => c07l_getD_le true t Q ph j
+
+/-- X1, chaining form: the invariant noise of the product (the quantity `Spec.budget` measures) is bounded by `F / 2^34`, so the
+    result can be fed to the next `bfvMultiply_noise` -/
+theorem bfvMultiply_noiseLe {l : Level} {T : Array NTTTables} (hm : MulOK l T) {a b r : Ct}
+    (ha : ∀ k, k < a.polys.size → RnsCanon l (a.polys.getD k #[]))
+    (hb : ∀ k, k < b.polys.size → RnsCanon l (b.polys.getD k #[]))
+    (hna : a.ntt = false) (hnb : b.ntt = false) (h1 : 1 ≤ a.polys.size) (h2 : 1 ≤ b.polys.size)
+    (hwin : c02w_Window l a.polys.size b.polys.size) (hr : bfvMultiply l T a b = .ok r)
+    {sk : Array Int} (hsk : sk.size = l.n) {Va Vb : Nat}
+    (hVa : c02x_NoiseLe l.t.value (Spec.prodL (c01p_qvals l)) (Spec.phase (c01p_qvals l) l.n sk a.polys.toList) l.n Va)
+    (hVb : c02x_NoiseLe l.t.value (Spec.prodL (c01p_qvals l)) (Spec.phase (c01p_qvals l) l.n sk b.polys.toList) l.n Vb) :
+    c02x_NoiseLe l.t.value (Spec.prodL (c01p_qvals l)) (Spec.phase (c01p_qvals l) l.n sk r.polys.toList) l.n
+      (c02x_F l.n l.t.value l.size (∑ k ∈ range l.n, (sk.getD k 0).natAbs) a.polys.size b.polys.size Va Vb / (2 * 2^33)) := by
+  intro c hc
+  have hQ : 0 < Spec.prodL (c01p_qvals l) := by rw [c02x_prodL hm]; exact hm.tool.qwf.prod_pos
+  obtain ⟨μ, ν, e1, -, e3⟩ := bfvMultiply_noise hm ha hb hna hnb h1 h2 hwin hr hsk hVa hVb c hc
+  refine le_trans (c02x_v_le_any hQ e1) ?_
+  rw [Nat.le_div_iff_mul_le (by positivity)]
+  rw [Nat.mul_comm]; exact e3
+
+/-- why X3 needs `n_a + n_b ≥ 3`: the product of two single-polynomial operands succeeds (size 1) and decryption REFUSES it -/
+theorem bfvDecrypt_bfvMultiply_refuses_1x1 {l : Level} {T : Array NTTTables} (hm : MulOK l T) {a b : Ct}
+    (ha : ∀ k, k < a.polys.size → RnsCanon l (a.polys.getD k #[]))
+    (hb : ∀ k, k < b.polys.size → RnsCanon l (b.polys.getD k #[]))
+    (hna : a.ntt = false) (hnb : b.ntt = false) (h1 : a.polys.size = 1) (h2 : b.polys.size = 1) (sk : Array Int) :
+    ∃ r, bfvMultiply l T a b = .ok r ∧ bfvDecrypt l sk r = .error .refused := by
+  obtain ⟨r, hr, hsz, -⟩ := bfvMultiply_ok hm ha hb hna hnb (by omega) (by omega)
+  exact ⟨r, hr, bfvDecrypt_refuses_small l sk r (by rw [hsz, h1, h2]; omega)⟩
+
+/-- refusal: operands in NTT form never reach decryption -/
+theorem bfvDecrypt_bfvMultiply_refuses_ntt (l : Level) (T : Array NTTTables) (a b : Ct) (sk : Array Int)
+    (h : a.ntt = true ∨ b.ntt = true) :
+    (bfvMultiply l T a b >>= bfvDecrypt l sk) = .error .refused := by
+  rw [bfvMultiply_refuse_ntt l T a b h]; rfl
+
+/-! ### satisfiability of the numeric thresholds (N = 4096, t = 65537, three moduli, worst-case ternary secret ‖s‖₁ = N,
+    operand noises ≤ 2^40, Q = 2^109): the X2/X3 threshold holds with a wide margin, and so does the 2 × 2 growth-factor bound -/
+
+theorem c02x_threshold_example :
+    c02x_F 4096 65537 3 4096 2 2 (2^40) (2^40) ≤ (2^33 - 1) * 2^109 ∧
+    c02x_G 4096 65537 3 4096 2 2 ≤ 2^(34 + (17 + 2 * 12 + 8)) := by
+  constructor <;> decide
 
 end HC
